@@ -71,6 +71,8 @@ func c02Doc(family int, v string) ([]map[string]any, func()) {
 	case family == 19: // the same mapping of hosts in a single file (no merge turns it into a list before it is decoded)
 		hosts := map[string]any{"multi": []any{"10.0.0.9", "10.0.0.1"}, "again": []any{"10.0.0.7", "10.0.0.3"}, "single": []any{"10.0.0.5"}, "plain" + v: "10.0.0.6"}
 		return []map[string]any{{"services": map[string]any{"s": map[string]any{"image": "i", "extra_hosts": hosts}, "t": map[string]any{"image": "i", "extra_hosts": map[string]any{"multi": []any{"10.9.9.9", "10.9.9.1"}}}}}}, setup
+	case family == 20: // nothing but the obsolete version key (with a symbolic value): the same outcome every time
+		return []map[string]any{{"version": "3." + v}}, setup
 	case family == 17: // default network: one explicit reference, the others implicit
 		doc := map[string]any{"services": map[string]any{
 			"a": map[string]any{"image": "i", "networks": []any{"default", "edge"}},
@@ -112,7 +114,7 @@ func c02Permute(doc map[string]any) map[string]any {
 func VerifC02Determinism() {
 	family := vrtParam("ONLYFAMILY", -1)
 	if family < 0 {
-		family = vrtChoice("family", 20)
+		family = vrtChoice("family", 21)
 	}
 	v := "x" + vrtString("v", vrtParam("VL", 1), "ab")
 	mode := []int{1, 3, 4}[vrtChoice("order", 3)]
